@@ -13,7 +13,8 @@ import (
 const ndPkg = "verifharness/nd."
 
 // RuneDomainM: the representatives of non-ASCII code points (see DESIGN §2.2).
-var RuneDomainM = []rune{0xE9, 0x4E16, 0x1D4B3, 0x663, 0xA0, 0x85, 0x3000, 0xD7, 0xFFFD, 0x10FFFF}
+var RuneDomainM = []rune{0xE9, 0x4E16, 0x1D4B3, 0x663, 0xA0, 0x85, 0x3000, 0xD7, 0xFFFD, 0x10FFFF,
+	0xB2, 0x2167, 0x2003, 0x2028, 0x301, 0x203F} // ... and ² (No) Ⅷ (Nl) EM SPACE (Zs) LINE SEPARATOR (Zl) COMBINING ACUTE (Mn) ‿ (Pc)
 
 func (i *interpreter) ndVar(k types.BasicKind, def uint64, label string) (sym, *term) {
 	w, _ := kindInfo(k)
